@@ -129,6 +129,11 @@ def layouts(pat, old, new, tier, fmt):
         fx = projgen.build_file("src/x.txt", s, "own-lines", "ascii", "LF", True)
         fy = projgen.build_file("src/y.txt", s, ("repeat", 2), "ascii", "LF", True)
         yield (f"glob:{ids}", "glob-entry", [fx, fy], [("src/*.txt", [fp.raw for fp in s])], False)
+        # recursive glob: files directly in src/, one level and three levels down
+        deep = [projgen.build_file(n, s, "own-lines", "ascii", "LF", True) for n in ("src/top.txt", "src/pkg/mid.txt", "src/pkg/sub/deep/leaf.txt")]
+        yield (f"glob-recursive:{ids}", "recursive-glob-entry", deep, [("src/**/*.txt", [fp.raw for fp in s])], False)
+        q = [projgen.build_file(n, s, "own-lines", "ascii", "LF", True) for n in ("docs/a1.txt", "docs/b2.txt")]
+        yield (f"glob-charclass:{ids}", "glob-entry", q, [("docs/[ab]?.txt", [fp.raw for fp in s])], False)
         # the same file reached by a glob and by an explicit entry with another pattern (repeated entry)
         for extra in small:
             if len(extra) == 1 and extra[0].pid not in [fp.pid for fp in s] and pt.compatible(s + extra, old, new):
